@@ -151,7 +151,7 @@ def check_dedup_direct(ctx):
 def run(ctx):
     install()
     from checks import reactor_common as _RC
-    _RC.RUN_TIMEOUT_S[0] = 10 if ctx.quick else 120
+    _RC.RUN_TIMEOUT_S[0] = 10 if ctx.quick else 45
     rng = ctx.rng
     idx = 0
     import os
